@@ -43,7 +43,7 @@ ASSUMPTIONS = [
     'when both type), "yes" to a comparison only if both devices show the same six digits, unless the case '
     'says otherwise',
     'the application on the central answers a Security Request by calling pair()',
-    'key stores are bumble.keys.MemoryKeyStore; identity address type = the random static address used on air',
+    'key stores are bumble.keys.MemoryKeyStore, in 40% of the cases behind a to_dict/JSON/from_dict round trip as a JsonKeyStore would do; identity address type = the random static address used on air',
     'reconnection is judged only where a key for that direction was distributed (legacy: the future '
     'peripheral distributed its LTK); SMP over BR/EDR runs with link encryption set by the harness and link '
     'keys preloaded, as tests/self_test.py::test_self_smp_over_classic does',
@@ -71,6 +71,14 @@ ADDRS = ['C1:22:33:44:55:66', 'F6:E5:D4:C3:B2:A1']
 # =============================================================================
 # plan
 # =============================================================================
+
+def keys_dict(keys):
+    """Field dictionary of a PairingKeys taken attribute by attribute (not bumble's own to_dict(),
+    which is a codec the key-store check judges)."""
+    import dataclasses
+    return dataclasses.asdict(keys) if dataclasses.is_dataclass(keys) else dict(vars(keys))
+
+
 def _base(kind, seed, **kw):
     c = {
         'kind': kind, 'seed': seed,
@@ -373,8 +381,21 @@ class World:
         self.irks = []
         self.configs = []
         oob = self.make_oob()
+        import json as _json
+        from bumble.keys import PairingKeys
+
+        class SerialisingStore(MemoryKeyStore):
+            """MemoryKeyStore that passes every stored value through the JSON form a
+            JsonKeyStore writes (PairingKeys.to_dict -> json -> PairingKeys.from_dict), so that
+            what a later connection reads is what persistence would have kept."""
+
+            async def update(self, name, keys):
+                await super().update(name, PairingKeys.from_dict(_json.loads(_json.dumps(keys.to_dict()))))
+
+        self.serialising = self.rng.random() < 0.4
+        r.ev('serialising_store_cases' if self.serialising else 'memory_store_cases')
         for i, d in enumerate(rg.devices):
-            d.keystore = MemoryKeyStore()
+            d.keystore = SerialisingStore() if self.serialising else MemoryKeyStore()
             irk = bytes(self.rng.randrange(256) for _ in range(16))
             d.irk = irk
             self.irks.append(irk)
@@ -664,7 +685,7 @@ async def le_case(case, r: R):
                 continue   # reported under outcome-disagree
             r.check(not stores[i], f'pairing/keys-stored-after-failure/{what or "no-refusal"}',
                     f'device {i} ({"initiator" if i == C else "responder"}) reported {fin[i]} but its key store holds '
-                    f'{[(n, sorted(k.to_dict())) for n, k in stores[i]]}; other side {fin[1 - i]}; {desc}')
+                    f'{[(n, sorted(keys_dict(k))) for n, k in stores[i]]}; other side {fin[1 - i]}; {desc}')
 
     # ---- association model -----------------------------------------------------
     roles = {C: side_role(users.calls[C]), P: side_role(users.calls[P])}
@@ -852,8 +873,8 @@ def check_success(w, an, r, mode, obs_model, exp_model, conns, stores, outcome, 
         rec[i] = stores[i][0][1] if stores[i] else None
         ev_keys = [v for k, v in outcome[i] if k == 'paired']
         if ev_keys and rec[i] is not None:
-            r.check(ev_keys[0].to_dict() == rec[i].to_dict(), f'keys/event-vs-store/{mode}',
-                    f'device {i}: pairing event keys {sorted(ev_keys[0].to_dict())} != stored {sorted(rec[i].to_dict())}; {desc}')
+            r.check(keys_dict(ev_keys[0]) == keys_dict(rec[i]), f'keys/event-vs-store/{mode}',
+                    f'device {i}: pairing event keys {sorted(keys_dict(ev_keys[0]))} != stored {sorted(keys_dict(rec[i]))}; {desc}')
     if rec[C] is None or rec[P] is None:
         return
     ikd, rkd = an.init_kd, an.resp_kd
@@ -894,7 +915,7 @@ def check_success(w, an, r, mode, obs_model, exp_model, conns, stores, outcome, 
     if mode == 'sc':
         for i in (C, P):
             r.check(rec[i].ltk is not None and rec[i].ltk_central is None and rec[i].ltk_peripheral is None,
-                    'keys/ltk-slot/sc', f'device {i} stored {sorted(rec[i].to_dict())}; {desc}')
+                    'keys/ltk-slot/sc', f'device {i} stored {sorted(keys_dict(rec[i]))}; {desc}')
         if rec[C].ltk is not None and rec[P].ltk is not None:
             r.check(rec[C].ltk.value == rec[P].ltk.value, 'keys/ltk-value-differs/sc',
                     f'{rec[C].ltk.value.hex()} vs {rec[P].ltk.value.hex()}; {desc}')
@@ -1024,7 +1045,7 @@ async def reconnect(w, an, r, mode, conns, steps, desc):
         r.ev('reconnect_checks')
         if not r.check(err is None and len(cmds) == 1 and cmds[0][2] == cc.handle, f'reconnect/encrypt-failed/{key}',
                        f'encrypt() -> {err}; {len(cmds)} LE Enable Encryption commands; stores: central '
-                       f'{[(n_, sorted(k.to_dict())) for n_, k in store_keys(rg.devices[central])]}; {desc}'):
+                       f'{[(n_, sorted(keys_dict(k))) for n_, k in store_keys(rg.devices[central])]}; {desc}'):
             continue
         _seq, _d, _h, rand, ediv, ltk = cmds[0]
         ans = w.provider_answers[nprov:]
